@@ -9,7 +9,7 @@ RULE = ("one transmitting RF24 and one receiving RF24 (six pipes open) on a simu
         "list with a concurrently polling peer thread, SPI flavour); unique-id payloads. "
         "Non-trivial: a payload was loaded into the radio or a rejection was observed; "
         "distinct = distinct abstract case tuples (payload contents abstracted).")
-RULE += (" Later rounds added: ping-pong role swaps, write()-until-refused streaming, set-up histories between opening the pipes and the traffic (role round trips, with re-entry, late address width, sender's own pipe-0 address, short re-open), blind read()-until-None drains, per-pipe static length styles, replies left unread in the sender's RX FIFO across a send(send_only=True) with forced retries and a lost first burst, static lengths configured first and ACK payloads enabled afterwards (pipe 0 dynamic from then on), one or two write_only loads before a send().")
+RULE += (" Later rounds added: ping-pong role swaps, write()-until-refused streaming, set-up histories between opening the pipes and the traffic (role round trips, with re-entry, late address width, sender's own pipe-0 address, short re-open), blind read()-until-None drains, per-pipe static length styles, replies left unread in the sender's RX FIFO across a send(send_only=True) with forced retries and a lost first burst, static lengths configured first and ACK payloads enabled afterwards (pipe 0 dynamic from then on), one or two write_only loads before a send(), dynamic payloads switched on pipe by pipe (function form after a global off / after every pipe was switched off singly, bit mask, list).")
 REQUIRED = {"bus_bytes": 500, "peer_read": 500, "buffer_unmodified": 500, "rejection_state": 20, "unread_replies_survive_send_only": 100,
             "exactly_once": 500, "pipe_attribution": 500}
 ASSUMPTIONS = ["configurations respect the documented ARD/data-rate constraint",
@@ -95,6 +95,14 @@ def gen_cases(ctx):
         yield _base(rng2, static=None, static_cfg=rng2.randrange(1, 33), pre=[rng2.choice(["ack_on", "ack_load"])],
                     pipe=0, auto_ack=True, crc=rng2.choice([1, 2]), ask_no_ack=False, pingpong=False,
                     junk_first=False, lens=[rng2.choice([rng2.randrange(0, 41), rng2.randrange(1, 33)])])
+    # dynamic payloads switched on pipe by pipe: after a global off through the function form, after
+    # every pipe was switched off singly, as a bit mask, as a list
+    rng3 = ctx.sub_rng("c01c")
+    for i in range(500 if ctx.tier == "quick" else 15000):
+        over = {"dyn_style": rng3.choice(["off_then_pipes", "off_then_pipes", "pipes_off_then_on", "mask", "list"])}
+        if rng3.random() < 0.3:
+            over["pre"] = [rng3.choice(L.PRE_OPS) for _ in range(rng3.randrange(1, 4))]
+        yield _base(rng3, static=None, lens=[rng3.choice([rng3.randrange(0, 41), rng3.randrange(1, 33)])], **over)
     if ctx.tier == "thorough":
         for btype in ("bytes", "bytearray"):
             for n in range(41):
@@ -109,7 +117,7 @@ def sig_of(case):
     return (tuple(case["lens"]), case["btype"], case["static"], case["pipe"], case["aw"],
             case["rate"], case["crc"], case["auto_ack"], case["ask_no_ack"], case["form"],
             case["flavour"], case.get("tx_kind"), case.get("rx_kind"), tuple(case.get("pre", ())),
-            case.get("aw_first"), case.get("drain"), case.get("pl_style"), case.get("static_cfg"))
+            case.get("aw_first"), case.get("drain"), case.get("pl_style"), case.get("static_cfg"), case.get("dyn_style"))
 
 
 def run_case(ctx, case, kinds=None, prefix=""):
